@@ -541,4 +541,42 @@ C14(pre, step, post, out) ==
                                  /\ post.config = pre.config /\ post.err = NoErr, "stop")
      \cup Tag((step.op = "stop" /\ pre.status \in {"stopped", "uninitialized"}) => out = <<>>, "stop_idempotent")
 
+--------------------------------------------------------------------------
+(* C04 -- run-to-completion, lossless and ordered processing, on one step's log          *)
+(*   preq: types queued before the step, postq: types still queued after it              *)
+
+TypesOf(out, k) == LET q == SelectSeq(out, LAMBDA e : e.k = k) IN [i \in 1..Len(q) |-> q[i].a]
+IsPrefixS(p, q) == Len(p) <= Len(q) /\ \A i \in 1..Len(p) : p[i] = q[i]
+
+C04Log(out, preq, postq, acceptedFirst, dropsAllowed) ==
+  LET enq == TypesOf(out, "enq")                     \* every send() call of the step, in call order
+      ev == TypesOf(out, "event")                    \* every dequeue, in order
+      offered == preq \o acceptedFirst \o enq
+      evIdx == {i \in 1..Len(out) : out[i].k = "event"}
+      \* a macrostep is open from its "event" entry to the settle pass that finds nothing more to do
+      closedBefore(i) == \E j \in 1..(i - 1) :
+                            /\ \/ (out[j].k = "select" /\ out[j].b = "settle" /\ out[j].c = {})
+                               \/ out[j].k \in CutKinds \cup {"loop_error"}     \* the bound or an error ended it
+                            /\ ~\E x \in (j + 1)..(i - 1) : out[x].k \in {"act", "on_transition", "cancel", "sched"}
+      prevEv(i) == {j \in evIdx : j < i}
+  IN \* processed in acceptance order, nothing duplicated or invented
+     Tag(dropsAllowed \/ IsPrefixS(ev, offered), "processed_out_of_order_or_twice")
+     \* nothing lost: what was offered is processed or still queued
+     \cup Tag(dropsAllowed \/ ev \o postq = offered, "accepted_event_lost")
+     \* one macrostep at a time: the next dequeue happens only after the previous event settled
+     \cup Tag(\A i \in evIdx : prevEv(i) = {} \/ closedBefore(i), "macrosteps_interleaved")
+     \* nothing is processed inside a transition (between its exit and its completion hook)
+     \cup Tag(\A i \in evIdx : ~\E j \in 1..(i - 1) :
+                  /\ out[j].k = "select" /\ out[j].b = "process" /\ out[j].c # {}
+                  /\ ~\E x \in (j + 1)..(i - 1) : out[x].k \in {"on_transition", "rearm", "loop_error"}
+                  /\ \E x \in (j + 1)..(i - 1) : out[x].k \in {"cancel", "act"}, "event_processed_inside_a_transition")
+
+\* on a core edge: quiescent before and after, one public call
+C04(pre, step, post, out) ==
+  LET drops == \/ post.status # "running" \/ pre.status # "running" \/ post.err # NoErr
+               \/ \E i \in 1..Len(out) : out[i].k \in CutKinds \cup {"loop_error"}
+      first == IF step.op = "batch" THEN step.evs ELSE <<>>       \* send_events() does not go through send()
+  IN IF step.op \notin {"start", "send", "batch"} THEN {}
+     ELSE C04Log(out, <<>>, <<>>, first, drops)
+
 =============================================================================
